@@ -51,7 +51,7 @@ class Ctx:
 
     def new_id(self, stream):
         self._id += 1
-        return "%s%d" % (stream, self._id)
+        return "%s_%d" % (stream, self._id)   # (the separator keeps ids of streams whose names end in digits apart)
 
     def case(self, stream, text, cfg=gen.DEFAULT_CFG, cursors=None, meta=None):
         m = {"stream": stream}
@@ -209,6 +209,47 @@ def ml_string_families(ctx, text, cfg):
         if any(t in toks and fam_size[root[i]] > 1 for i, (_, toks) in enumerate(lines)):
             with_children += 1
     return {"ml_tokens": len(ml), "in_family_with_children": with_children}
+
+
+def token_in_line_without_solution(ctx, text, cfg, token):
+    """For the F42 class detector: does the token belong to a logical line (or to a descendant of one) for which the
+    search reported `none` or `limit` (hook: WS <line> none|limit <n>)?"""
+    c = Case("nosol", cfg, [], text)
+    try:
+        results, files, wd = runner.run_cases([c], mode="trace")
+    except Exception:
+        return False
+    ctx.workdirs.append(wd)
+    lines, lab, failed = [], None, set()
+    for tf in files:
+        try:
+            fh = open(tf, errors="replace")
+        except OSError:
+            continue
+        with fh:
+            for ln in fh:
+                p = ln.split()
+                if not p:
+                    continue
+                if p[0] == "LINES":
+                    lab = p[1]
+                elif p[0] in ("STATE", "OUT", "PARSED", "GENERICS", "RAW"):
+                    lab = None
+                elif p[0] == "l" and lab == "pre":
+                    lines.append((int(p[3]), [int(x) for x in p[6:]]))
+                elif p[0] == "WS" and len(p) >= 3 and p[2] in ("none", "limit"):
+                    failed.add(int(p[1]))
+    for i, (par, toks) in enumerate(lines):
+        if token in toks:
+            j, seen = i, 0
+            while seen <= len(lines):
+                if j in failed:
+                    return True
+                if not (0 <= lines[j][0] < len(lines)):
+                    break
+                j = lines[j][0]
+                seen += 1
+    return False
 
 
 def voided_parent_with_children(ctx, text, cfg):
@@ -500,6 +541,9 @@ def run_c07(ctx):
                 continue
             new, regions = r
             cases.append(ctx.case("region", new, gen.random_cfg(rng), meta={"regions": regions}))
+        r = double_region_in_statement(text, rng)
+        if r is not None:
+            cases.append(ctx.case("region2", r[0], gen.random_cfg(rng), meta={"regions": r[1]}))
     # asm bodies
     for _ in range(ctx.n(60, 600)):
         body = rng.choice(ASM_BODIES)
@@ -535,6 +579,47 @@ def run_c07(ctx):
 
 def line_split(out: bytes):
     return out.replace(b"\r\n", b"\n").split(b"\n")
+
+
+def double_region_in_statement(text, rng):
+    """one statement whose head and tail are in disabled regions while its middle is formatted code, with several blank
+    lines before a middle token: `{pasfmt off}Foo  ({pasfmt on} A,<blank lines> B {pasfmt off})  ;{pasfmt on}`.
+    returns (new_text, [regions]) or None"""
+    if gen.has_asm_or_toggle(text) or "'''" in text:
+        return None
+    lines = text.split("\n")
+    cand = [i for i, ln in enumerate(lines) if ln.strip().endswith(";") and "//" not in ln and "{" not in ln and "(*" not in ln and "'" not in ln]
+    rng.shuffle(cand)
+    for li in cand:
+        toks = [(k, t) for k, t in gen.tokenize(lines[li])]
+        idx = [i for i, (k, t) in enumerate(toks) if k != "ws"]
+        if len(idx) < 6:
+            continue
+        a = rng.randrange(1, len(idx) - 3)          # the first region ends after token a
+        b = rng.randrange(a + 2, len(idx))          # the second region starts before token b
+        parts = []
+        regions = []
+        for n_, i in enumerate(idx):
+            if n_ == 0:
+                parts.append("{pasfmt off}")
+            if n_ == b:
+                parts.append(rng.choice(["\n\n\n\n   ", "\n\n\n", "  "]) if rng.random() < 0.7 else " ")
+                parts.append("{pasfmt off}")
+            parts.append(toks[i][1])
+            if n_ == a:
+                parts.append("{pasfmt on}")
+                parts.append(rng.choice(["\n\n\n\n      ", "\n\n\n  ", " "]))
+            elif n_ == len(idx) - 1:
+                parts.append("{pasfmt on}")
+            else:
+                parts.append(rng.choice([" ", "  ", "   "]))
+        new_line = "".join(parts)
+        r1 = new_line[:new_line.index("{pasfmt on}") + len("{pasfmt on}")]
+        r2 = new_line[new_line.rindex("{pasfmt off}"):]
+        lead = lines[li][:len(lines[li]) - len(lines[li].lstrip())]
+        out = lines[:li] + [lead + new_line] + lines[li + 1:]
+        return "\n".join(out), [r1.encode("utf-8"), r2.encode("utf-8")]
+    return None
 
 
 def twice_decided_texts(ctx, n1, n2):
@@ -636,6 +721,9 @@ def run_c08(ctx):
         r = insert_region(text, rng)
         if r is not None:
             cases.append(ctx.case("region", r[0], gen.random_cfg(rng, wrap=rng.choice([wrap, 120, 1000000])), meta={"invalid": True}))
+        r = double_region_in_statement(text, rng)
+        if r is not None:
+            cases.append(ctx.case("region2", r[0], gen.random_cfg(rng, wrap=rng.choice([wrap, 120, 1000000])), meta={"invalid": True}))
     cases += witness_cases(ctx, "C08", wellformed=True)
     wf_cases = [c for c in cases if c.meta.get("wellformed")]
     other = [c for c in cases if not c.meta.get("wellformed")]
@@ -650,6 +738,9 @@ def run_c08(ctx):
                 continue
             if "pasfmt" in t.lower():
                 f["voided_parent"] = voided_parent_with_children(ctx, t, tuple(f["cfg"]))
+            m = re.search(r"\btoken (\d+)\b", f.get("detail") or "")
+            if m and f.get("kind") == "plan_not_canonical":
+                f["no_solution_line"] = token_in_line_without_solution(ctx, t, tuple(f["cfg"]), int(m.group(1)))
     ctx.hypotheses["H-W1 canon_fmt (final per-token data: line start => no spaces; continuation => <= 1 space, no indentation; <= 1 blank line)"] = "unit canon on every trace"
     ctx.hypotheses["no content ends in a blank before a line break"] = "unit lineend on every trace (classes F3/F7 matched against known findings)"
 
